@@ -229,6 +229,9 @@ pub struct WorkerSummary {
 #[derive(Serialize, Deserialize)]
 pub enum WorkerMsg {
     Begin(u64),
+    /// a violating run as found, sent before the worker starts minimising it (which may
+    /// take long, or get the worker killed): the parent falls back on it
+    Candidate(Box<ReplayFile>),
     Violation(Box<ReplayFile>, Box<ReplayFile>),
     Harness(String),
     Summary(Box<WorkerSummary>),
@@ -351,6 +354,7 @@ pub fn worker<P: Prop>(
                     } else {
                         let orig = mk_replay::<P>(verif_seed, idx, ent, thorough, false, &wl, &rep);
                         let inv = rep.violation.as_ref().unwrap().invariant.clone();
+                        emit(&WorkerMsg::Candidate(Box::new(orig.clone())));
                         let (mw, _mt, mr, _tried) = minimise::<P>(
                             &wl,
                             &rep.tape,
@@ -650,6 +654,7 @@ pub fn check<P: Prop>(o: &CheckOpts) -> i32 {
                 });
                 let mut last_begin: Option<u64> = None;
                 let mut got_summary = false;
+                let mut candidate: Option<ReplayFile> = None;
                 for line in rd.lines() {
                     let line = match line {
                         Ok(l) => l,
@@ -661,7 +666,17 @@ pub fn check<P: Prop>(o: &CheckOpts) -> i32 {
                             beat.lock().unwrap().0 = Instant::now();
                             started.store(true, std::sync::atomic::Ordering::SeqCst);
                         }
-                        Ok(WorkerMsg::Violation(a, b)) => agg.violations.push((*a, *b, start)),
+                        Ok(WorkerMsg::Candidate(c)) => {
+                            candidate = Some(*c);
+                            // minimising is not a run: it has its own time budget
+                            beat.lock().unwrap().0 = Instant::now()
+                                + Duration::from_secs(if thorough { 180 } else { 60 })
+                                + limit;
+                        }
+                        Ok(WorkerMsg::Violation(a, b)) => {
+                            candidate = None;
+                            agg.violations.push((*a, *b, start))
+                        }
                         Ok(WorkerMsg::Harness(e)) => agg.harness.push(e),
                         Ok(WorkerMsg::Done) => got_summary = true,
                         Ok(WorkerMsg::Summary(s)) => {
@@ -698,6 +713,11 @@ pub fn check<P: Prop>(o: &CheckOpts) -> i32 {
                 beat.lock().unwrap().1 = true;
                 let _ = watcher.join();
                 sandbox_reap(pid as u32);
+                if let Some(c) = candidate.take() {
+                    // the worker did not survive minimising: the run as found stands
+                    agg.violations.push((c.clone(), c, start));
+                    break;
+                }
                 if got_summary {
                     break;
                 }
